@@ -20,7 +20,7 @@ ASSUMPTIONS = ["data equality: == for str, attribute dict for objects", "Tree.fr
 MECH = ["nutree.node:Node.to_dict", "nutree.tree:Tree.to_dict_list", "nutree.node:Node.from_dict", "nutree.tree:Tree.from_dict"]
 MIN_NONTRIVIAL = {"quick": 500, "thorough": 5000}
 EXHAUSTIVE = {"quick": True, "thorough": True}
-FLAVOURS = ["str", "ids", "unicode", "obj", "emptied", "dupdoc"]
+FLAVOURS = ["str", "ids", "unicode", "obj", "objdefault", "emptied", "dupdoc"]
 
 
 class Obj:
@@ -36,6 +36,16 @@ class Obj:
         return ("Obj", self.name, self.guid, self.extra)
 
 
+class HObj(Obj):
+    """Value object: equal and hashable by content, so the default data_id (hash) is stable across a round trip."""
+
+    def __eq__(self, other):
+        return isinstance(other, HObj) and self.key() == other.key()
+
+    def __hash__(self):
+        return hash(self.key())
+
+
 def calc_id(tree, data):
     return data.guid if isinstance(data, Obj) else hash(data)
 
@@ -46,13 +56,22 @@ def ser(node, data):
         data["name"] = d.name
         data["extra"] = d.extra
         data["guid"] = d.guid
+        if isinstance(d, HObj):
+            data["hobj"] = True
     return data
 
 
 def deser(parent, item):
     if "guid" in item:
-        return Obj(item["name"], item["guid"], item["extra"])
+        cls = HObj if item.get("hobj") else Obj
+        return cls(item["name"], item["guid"], item["extra"])
     return item["data"]
+
+
+def ser_none(node, data):
+    """Mapper style 4: edits the dict in place and returns None (allowed by the callback type)."""
+    ser(node, data)
+    return None
 
 
 def ser_newdict(node, data):
@@ -61,6 +80,8 @@ def ser_newdict(node, data):
     out = dict(data)
     if isinstance(d, Obj):
         out.update(name=d.name, extra=d.extra, guid=d.guid)
+        if isinstance(d, HObj):
+            out["hobj"] = True
     return out
 
 
@@ -69,12 +90,17 @@ def ser_ownkey(node, data):
     d = node.data
     if isinstance(d, Obj):
         data.update(name=d.name, extra=d.extra, guid=d.guid)
-        data.pop("data_id", None)
+        if isinstance(d, HObj):
+            data["hobj"] = True
+        else:
+            data.pop("data_id", None)
     return data
 
 
 def deser_ownkey(parent, item):
     if "guid" in item:
+        if item.get("hobj"):
+            return HObj(item["name"], item["guid"], item["extra"])
         item["data_id"] = item["guid"]
         return Obj(item["name"], item["guid"], item["extra"])
     return item["data"]
@@ -94,6 +120,16 @@ def build(case):
         labs = gen.clone_labeling(rng, f, list(range(len(pool)))) or None
         if labs is None:
             pool = [Obj(f"nm{i}", f"g{i}") for i in range(n)]
+            labs = list(range(n))
+        nodes = gen.build(t, f, lambda i: pool[labs[i]])
+        return t, nodes
+    if fl == "objdefault":
+        # hashable value objects keep their default id hash(data): no data_id may be emitted for them
+        t = Tree("t")
+        pool = [HObj(f"nm{i}", f"g{i}", rng.choice([None, 2])) for i in range(max(1, n // 2 + 1))]
+        labs = gen.clone_labeling(rng, f, list(range(len(pool))))
+        if labs is None:
+            pool = [HObj(f"nm{i}", f"g{i}") for i in range(n)]
             labs = list(range(n))
         nodes = gen.build(t, f, lambda i: pool[labs[i]])
         return t, nodes
@@ -159,7 +195,7 @@ def mirror(dicts, kids, mapper_used, bad, path="/", ownkey=False):
         default = c.data_id == hash(c.data)
         if default and "data_id" in d:
             bad.append(f"{path}{c.data}: data_id emitted although it is the default")
-        if ownkey and isinstance(c.data, Obj):
+        if ownkey and isinstance(c.data, Obj) and not isinstance(c.data, HObj):
             if "data_id" in d:
                 bad.append(f"{path}{c.data}: mapper removed data_id but it is present")
         elif not default and d.get("data_id", "<missing>") != c.data_id:
@@ -167,9 +203,6 @@ def mirror(dicts, kids, mapper_used, bad, path="/", ownkey=False):
         ck = list(c.children)
         if ck or "children" in d:
             mirror(d.get("children", []), ck, mapper_used, bad, f"{path}{c.data}/", ownkey)
-        allowed = {"data", "data_id", "children"} | ({"name", "extra", "guid"} if mapper_used else set())
-        if set(d) - allowed:
-            bad.append(f"{path}{c.data}: unexpected keys {set(d) - allowed}")
         if mapper_used and isinstance(c.data, Obj) and (d.get("guid") != c.data.guid or d.get("name") != c.data.name):
             bad.append(f"{path}{c.data}: mapper output missing")
 
@@ -181,7 +214,7 @@ def run_case(case, res):
     fl = case["flavour"]
     n = len(nodes)
     ids = [x.data_id for x in nodes]
-    res.case(case, nontrivial=n >= 4 and (len(set(ids)) < n or fl in ("ids", "obj")))
+    res.case(case, nontrivial=n >= 4 and (len(set(ids)) < n or fl in ("ids", "obj", "objdefault")))
     bad = []
 
     def attempt(fn):
@@ -226,10 +259,10 @@ def run_case(case, res):
                     if not (isinstance(r, tuple) and r[1] == "UniqueConstraintError"):
                         bad.append(f"from_dict of a document with duplicate siblings: {r!r}")
             else:
-                mapper_used = fl == "obj"
+                mapper_used = fl in ("obj", "objdefault")
                 src = shape(t)
                 style = case.get("style", 0) if mapper_used else 0
-                ser_f, deser_f = [(ser, deser), (ser_newdict, deser), (ser_ownkey, deser_ownkey)][style]
+                ser_f, deser_f = [(ser, deser), (ser_newdict, deser), (ser_ownkey, deser_ownkey), (ser_none, deser)][style]
                 res.count(f"mapper_style:{style}" if mapper_used else "no_mapper")
                 dl = attempt(lambda: t.to_dict_list(mapper=ser_f) if mapper_used else t.to_dict_list())
                 res.count("to_dict_list")
@@ -262,7 +295,7 @@ def run_case(case, res):
                         b = []
                         mirror([d], [x], mapper_used, b, ownkey=style == 2)
                         bad.extend(b)
-                        t4 = Tree("t4", calc_data_id=calc_id if mapper_used else None)
+                        t4 = Tree("t4", calc_data_id=calc_id if fl == "obj" else None)
                         top = t4.add("TOP")
                         r = attempt(lambda: top.from_dict([json.loads(json.dumps(d))], mapper=deser_f if mapper_used else None))
                         if isinstance(r, tuple):
@@ -287,10 +320,10 @@ NSHARDS = 16
 
 
 def shards(tier, seed):
-    bound = 6 if tier == "quick" else 7
+    bound = 6 if tier == "quick" else 8
     out = [{"name": f"enum{i}", "kind": "enum", "i": i, "bound": bound, "budget_s": 150 if tier == "quick" else 1800}
            for i in range(NSHARDS)]
-    out += [{"name": f"rand{i}", "kind": "rand", "i": i, "count": 40 if tier == "quick" else 400,
+    out += [{"name": f"rand{i}", "kind": "rand", "i": i, "count": 40 if tier == "quick" else 3000,
              "budget_s": 90 if tier == "quick" else 900} for i in range(NSHARDS)]
     return out
 
@@ -305,7 +338,7 @@ def run_shard(spec, res):
                 if k % NSHARDS != spec["i"]:
                     continue
                 for fl in FLAVOURS:
-                    for style in ((0, 1, 2) if fl == "obj" else (0,)):
+                    for style in ((0, 1, 2, 3) if fl in ("obj", "objdefault") else (0,)):
                         run_case({"f": gen.code(f), "flavour": fl, "seed": seed, "style": style}, res)
                 if res.expired():
                     res.count("exhaustive_cut")
@@ -315,6 +348,6 @@ def run_shard(spec, res):
         rng = rng_for(seed, "c14-rand", spec["i"])
         for j in range(spec["count"]):
             f = gen.random_forest(rng, rng.randint(6, 30))
-            run_case({"f": gen.code(f), "flavour": rng.choice(FLAVOURS), "seed": rng.randrange(10**6), "style": rng.randrange(3)}, res)
+            run_case({"f": gen.code(f), "flavour": rng.choice(FLAVOURS), "seed": rng.randrange(10**6), "style": rng.randrange(4)}, res)
             if res.expired():
                 break
